@@ -730,12 +730,10 @@ impl<T: Clone + Eq + Debug + Default> WrappedBlock<T> {
         self.word.push(elt);
     }
 
-    fn text_len(&self) -> usize {
-        self.text.len() + self.line.len + self.wordlen
-    }
-
     fn is_empty(&self) -> bool {
-        self.text_len() == 0
+        // Judged by content, not by display width: text made only of
+        // zero-width characters (e.g. a lone combining mark) is still content.
+        self.text.is_empty() && self.line.is_empty() && self.word.is_empty()
     }
 }
 
